@@ -107,3 +107,21 @@ func (self *VerifJobManager) reattach(*Metadata) {}
 func (self *LocalJobManager) VerifDisableProcLimit() {
 	self.procsSem = nil
 }
+
+// VerifMapForkName returns the fork directory name for a map-call key.
+func VerifMapForkName(key string) string {
+	return mapKeyFork(key).forkString()
+}
+
+// VerifJournalForkName returns the form of a fork id used in journal file
+// names.
+func VerifJournalForkName(forkId string) string {
+	return encodeJournalName.Replace(forkId)
+}
+
+// VerifParseRunFilename exposes the journal file name parser: fully
+// qualified node name, fork index, chunk index (-1 if none), uniquifier
+// and metadata file name.
+func VerifParseRunFilename(name string) (string, string, int, string, string) {
+	return (*Node)(nil).parseRunFilename(name)
+}
